@@ -111,6 +111,7 @@ func (m *Mutex) Unlock() {
 type RWMutex struct {
 	mu      sync.RWMutex
 	writer  bool
+	wwait   int // writers parked in Lock: as in sync.RWMutex they exclude NEW readers
 	readers int
 	wvc     vclock // released by writers, acquired by everyone
 	rvc     vclock // released by readers, acquired by writers
@@ -129,8 +130,12 @@ func (m *RWMutex) Lock() {
 		return
 	}
 	e.point("RWMutex.Lock")
-	for m.writer || m.readers > 0 {
-		e.block(func() bool { return !m.writer && m.readers == 0 }, "RWMutex.Lock")
+	if m.writer || m.readers > 0 {
+		m.wwait++
+		for m.writer || m.readers > 0 {
+			e.block(func() bool { return !m.writer && m.readers == 0 }, "RWMutex.Lock")
+		}
+		m.wwait--
 	}
 	m.writer = true
 	e.acquire(&m.wvc)
@@ -168,8 +173,11 @@ func (m *RWMutex) RLock() {
 		return
 	}
 	e.point("RWMutex.RLock")
-	for m.writer {
-		e.block(func() bool { return !m.writer }, "RWMutex.RLock")
+	// "If any goroutine calls Lock while the lock is already held by one or more readers,
+	// concurrent calls to RLock will block until the writer has acquired (and released) the
+	// lock" - which is what makes recursive read locking a deadlock
+	for m.writer || m.wwait > 0 {
+		e.block(func() bool { return !m.writer && m.wwait == 0 }, "RWMutex.RLock")
 	}
 	m.readers++
 	e.acquire(&m.wvc)
